@@ -1,4 +1,4 @@
 SPECIFICATION Spec
-CONSTANTS Kinds = {"K1", "K2"}  Ids = {1, 2}  Ctrls = {"q"}  Cfg <- CfgD  Alt <- AltNoneQ  Cached = {"K2"}  MaxWrites = 4  MaxFaults = 1  MapTo <- MapAll
+CONSTANTS Kinds = {"K1", "K2"}  Ids = {1, 2}  Ctrls = {"q"}  Cfg <- CfgD  Alt <- AltNoneQ  Cached = {"K2"}  MaxWrites = 4  MaxFaults = 1  Noops = FALSE  MapTo <- MapAll
 INVARIANTS NoLostWakeup MappedReachesPrimaries CacheCoherentWhenQuiet
 CHECK_DEADLOCK FALSE
